@@ -46,6 +46,21 @@ def main():
     outcome = "returned"
     states = {}
     tasks = {}
+    # earlier experiment blocks of the same process (same experiment name), e.g. with another total for the same token
+    for k, phase in enumerate(plan.get("before", [])):
+        try:
+            with experiment(ws, plan.get("name", "xp"), port=-1) as xp:
+                for kk, v in plan.get("env", {}).items():
+                    xp.workspace.launcher.setenv(kk, v)
+                toks = [xp.workspace.connector.createtoken(t["name"], t["total"]) for t in phase.get("tokens", [])]
+                for spec in phase["jobs"]:
+                    t = zoo.TaskT(x=spec["x"], hold=spec.get("hold", 0))
+                    for tk in spec.get("tokens", []):
+                        t.add_dependencies(toks[tk["tok"]].dependency(tk["n"]))
+                    t.submit()
+            note(progress, f"phase-done {k}")
+        except BaseException as e:
+            note(progress, f"phase-failed {k} {type(e).__name__}")
     try:
         kw = {}
         if plan.get("run_mode") == "generate":
